@@ -235,6 +235,21 @@ func c09Waits(e *Env) {
 			}
 		})
 		ok := waitD != nil && closeD != nil && core.Dominates(waitD, closeD)
+		if !ok {
+			// the same order written another way (one deferred clean-up function that closes, then waits): decide on the order in
+			// which the epilogue executes
+			order := epilogueOrder(f, 0)
+			ci, wi := -1, -1
+			for k, n := range order {
+				if n == "pkg/connections.Connections.Close" && ci < 0 {
+					ci = k
+				}
+				if n == "sync.WaitGroup.Wait" && wi < 0 {
+					wi = k
+				}
+			}
+			ok = ci >= 0 && wi >= 0 && ci < wi
+		}
 		e.R.Check(ok, rule, q+":close-before-wait", e.fpos(f), "connections.Close is deferred after wg.Wait, so it runs first and the wait can end", "the server waits for its connection goroutines without closing the connections first")
 	}
 }
@@ -391,6 +406,8 @@ func c09Run(e *Env, sess string) {
 			if ld, isLd := d.Call.Value.(*ssa.UnOp); isLd {
 				if _, fl, isF := core.FieldOf(ld.X); isF && fl == "doneCancel" {
 					okDone = true
+				} else if isF && c09CancelOfDone(e, sess, fl) {
+					okDone = true // the cancel function created together with the context Done() reports (whatever the fields are called)
 				}
 			}
 		})
@@ -580,4 +597,100 @@ func c09CallerContext(e *Env) {
 		}
 		e.R.Check(ok, rule, "net/client.Client.Ping:waits-on-caller-ctx", e.fpos(f), "Ping's wait includes the caller's context", "Ping does not wait on the caller's context")
 	}
+}
+
+// c09CancelOfDone: the field named cancelField holds the cancel function of the very context whose Done() the session's Done()
+// returns: some function of the package stores both results of one context.WithCancel call into sibling fields of one struct, the
+// context into the field Done() reads and the cancel function into cancelField.
+func c09CancelOfDone(e *Env, sess, cancelField string) bool {
+	done := e.P.Func(sess + ".Done")
+	if done == nil {
+		return false
+	}
+	ctxField := ""
+	for _, ret := range core.ReturnsOf(done) {
+		if c, ok := core.Resolve(core.RetVal(ret, 0)).(*ssa.Call); ok && c.Call.IsInvoke() && c.Call.Method.Name() == "Done" {
+			v := core.Unwrap(c.Call.Value)
+			switch x := v.(type) {
+			case *ssa.UnOp:
+				_, ctxField, _ = core.FieldOf(x.X)
+			case *ssa.Field:
+				_, ctxField, _ = core.FieldOf(x)
+			}
+		}
+	}
+	if ctxField == "" {
+		return false
+	}
+	pkg := done.Pkg
+	for _, f := range e.P.AllSrcFuncs(false) {
+		if f.Pkg != pkg {
+			continue
+		}
+		for _, c := range core.CallsNamed(f, "context.WithCancel") {
+			var ctxBase, cancelBase ssa.Value
+			for _, ref := range core.Referrers(c.(ssa.Value)) {
+				ex, isEx := ref.(*ssa.Extract)
+				if !isEx {
+					continue
+				}
+				for _, u := range core.Referrers(ex) {
+					st, isSt := u.(*ssa.Store)
+					if !isSt || st.Val != ssa.Value(ex) {
+						continue
+					}
+					fa, isFA := st.Addr.(*ssa.FieldAddr)
+					if !isFA {
+						continue
+					}
+					_, fl, _ := core.FieldOf(fa)
+					if ex.Index == 0 && fl == ctxField {
+						ctxBase = fa.X
+					}
+					if ex.Index == 1 && fl == cancelField {
+						cancelBase = fa.X
+					}
+				}
+			}
+			if ctxBase != nil && ctxBase == cancelBase {
+				return true
+			}
+		}
+	}
+	return false
+}
+
+// epilogueOrder lists, in execution order, the calls the deferred part of f performs when f returns: deferred calls run in reverse
+// order of registration; a deferred function of the module contributes its own direct calls in program order followed by its own
+// epilogue.
+func epilogueOrder(f *ssa.Function, depth int) []string {
+	if depth > 4 {
+		return nil
+	}
+	var defers []*ssa.Defer
+	core.InstrsOwn(f, func(in ssa.Instruction) {
+		if d, ok := in.(*ssa.Defer); ok {
+			defers = append(defers, d)
+		}
+	})
+	var out []string
+	for i := len(defers) - 1; i >= 0; i-- {
+		d := defers[i]
+		body := core.StaticFn(d)
+		if body != nil && len(body.Blocks) > 0 && (body.Parent() != nil || core.IsAbsorbed(body)) {
+			core.InstrsOwn(body, func(in ssa.Instruction) {
+				if c, ok := in.(*ssa.Call); ok {
+					if n := core.CalleeName(c); n != "" {
+						out = append(out, n)
+					}
+				}
+			})
+			out = append(out, epilogueOrder(body, depth+1)...)
+			continue
+		}
+		if n := core.CalleeName(d); n != "" {
+			out = append(out, n)
+		}
+	}
+	return out
 }
